@@ -54,7 +54,12 @@ def method_stubs(P, cls_qual, names, extra=None):
                         env[p] = defaults[p]
                     else:
                         raise interp.Unknown(f'argument {p} of {name}')
-            sub = interp.Machine(env, m.stubs, m.resolver)
+            # (the globals of a method are those of the module of its
+            # class, whichever module the caller is in)
+            res = m.resolver
+            if hasattr(res, 'module'):
+                res = res.module(cls_qual.rsplit('.', 1)[0]) or res
+            sub = interp.Machine(env, m.stubs, res)
             sub.steps = m.steps
             if is_gen:
                 sub.yields = []
@@ -1106,6 +1111,13 @@ class ClassStubs(dict):
     def explicit(self, name):
         """Given by the model itself (not found as a method)."""
         return name in self._explicit
+
+    def is_property(self, name):
+        if name in self._explicit or name in self.skip:
+            return False
+        f = self.P.func(f'{self.cls}.{name}', required=False)
+        return f is not None and any(
+            au.src(d) == 'property' for d in f.node.decorator_list)
 
     def _resolve(self, name):
         if dict.__contains__(self, name):
@@ -3518,6 +3530,261 @@ def r_declare(P, R):
     if n is not None:
         R.floor('R-RAW calls of the declaration model', n, 40)
 r_declare.NAME = 'R-RAW(declare model)'
+
+
+class _Handle:
+    """An operand that is a handle on the `dd.autoref` side and a node
+    number on the `dd.bdd` side of the sibling model."""
+
+    def __init__(self, u):
+        self.u = u
+
+    def __repr__(self):
+        return f'<node {self.u}>'
+
+
+def _sibling_cases(r, order):
+    H = _Handle
+    return [
+        ('var', ['a']), ('var', ['c']),
+        ('ite', [H(r[2]), H(r[5]), H(r[7])]),
+        ('ite', [H(r[3]), H(r[4]), H(-1)]),
+        ('let', [{'a': True, 'c': False}, H(r[4])]),
+        ('let', [{'a': H(r[3]), 'b': H(r[6])}, H(r[4])]),
+        ('let', [{'c': H(r[2])}, H(r[7])]),
+        ('let', [{'a': 'b', 'b': 'a'}, H(r[6])]),
+        ('let', [{'c': 'a'}, H(r[4])]),
+        ('let', [{}, H(r[6])]),
+        ('quantify', [H(r[4]), {'a'}]),
+        ('quantify', [H(r[6]), ['a', 'c'], True]),
+        ('forall', [{'b'}, H(r[6])]),
+        ('forall', [['a'], H(r[5])]),
+        ('exist', [['b', 'c'], H(r[3])]),
+        ('exist', [{'a'}, H(r[6])]),
+        ('apply', ['and', H(r[2]), H(r[5])]),
+        ('apply', ['=>', H(r[4]), H(r[7])]),
+        ('apply', ['ite', H(r[2]), H(r[5]), H(r[6])]),
+        ('apply', ['not', H(r[5])]),
+        ('cube', [{'a': True, 'c': False}]),
+        ('support', [H(r[4])]), ('support', [H(r[6]), True]),
+        ('count', [H(r[4]), 3]), ('count', [H(r[5])]),
+        ('count', [H(r[3]), 4]),
+        ('pick_iter', [H(r[4])]),
+        ('pick_iter', [H(r[2]), {'a', 'b', 'c'}]),
+        ('succ', [H(r[4])]), ('succ', [H(r[7])]), ('succ', [H(r[3])]),
+        ('to_expr', [H(r[5])]), ('to_expr', [H(r[2])]),
+        ('_add_int', [r[4]]), ('_add_int', [-abs(r[6])]),
+        ('level_of_var', ['b']), ('var_at_level', [2]),
+        ('var_levels', []),
+        ('add_var', ['d']), ('add_var', ['b', order.index('b')]),
+        ('incref', [H(r[4])]), ('decref', [H(r[4])]),
+        ('collect_garbage', []),
+        ('__len__', []), ('__contains__', [H(r[4])]),
+        ('true', []), ('false', []),
+        ('find_or_add', ['a', H(-1), H(r[4])]),
+        ('find_or_add', ['b', H(r[7]), H(1)]),
+    ]
+
+
+def autoref_sibling_model(P, R):
+    """Every method that `dd.autoref.BDD` shares with `dd.bdd.BDD`,
+    interpreted on both sides - handles, the handle class and the
+    wrapping manager on one, node numbers on the other - from the same
+    small manager, two variable orders.  The two must agree: the same
+    outcome (value or exception); where one gives a handle, the other
+    gives a reference to the same function, and the handle belongs to
+    the wrapping manager and owns a count; plain values equal; the
+    functions of the live references unchanged; for the methods that
+    only change the manager, the same variables, nodes and counts."""
+    import itertools
+    stubs = ClassStubs(P, 'dd.bdd.BDD', extra={
+        '_request_reordering': lambda m, c, a, k: None})
+    res_a = interp.ModuleEnv(P, 'dd.autoref', stubs)
+    res_b = res_a.module('dd.bdd')
+    names = ['a', 'b', 'c']
+    rows = list(itertools.product((False, True), repeat=3))
+    tts = [tuple(bool(a and b) for a, b, c in rows),
+           tuple(bool(a != c) for a, b, c in rows),
+           tuple(bool(b if a else c) for a, b, c in rows),
+           tuple(bool(not c) for a, b, c in rows)]
+    problems = dict()
+    undecided = dict()
+    n = 0
+    state_only = {'incref', 'decref', 'collect_garbage', 'add_var'}
+    try:
+        fcls = res_a('Function')
+        bcls = res_a('BDD')
+    except KeyError as e:
+        R.undecided('R-ARGS', 'dd.autoref.BDD', 'sibling model', str(e))
+        return None
+    for order in (['a', 'b', 'c'], ['c', 'a', 'b']):
+        base, ext = _build_manager(order, tts, range(len(tts)))
+        roots = sorted(ext)
+        refs = [1, -1] + [s * u for u in roots for s in (1, -1)]
+        for name, args in _sibling_cases(refs, order):
+            fa = P.func(f'dd.autoref.BDD.{name}', required=False)
+            fb = P.func(f'dd.bdd.BDD.{name}', required=False)
+            if fa is None or fb is None:
+                continue
+            obj_a = _object_manager(copy.deepcopy(
+                {k: v for k, v in base.items() if k != 'self'}))
+            obj_b = _object_manager(copy.deepcopy(
+                {k: v for k, v in base.items() if k != 'self'}))
+            wrapper = interp.Sym('autoref manager', {
+                '_bdd': obj_a, 'vars': obj_a.attrs['vars']})
+            wrapper.cls = bcls
+            given = []
+
+            def conv(x, side):
+                if isinstance(x, _Handle):
+                    if side == 'B':
+                        return x.u
+                    h = interp.Sym('Function', {
+                        'node': x.u, 'bdd': wrapper, 'manager': obj_a})
+                    h.cls = fcls
+                    given.append(h)
+                    return h
+                if isinstance(x, dict):
+                    return {k: conv(v, side) for k, v in x.items()}
+                if isinstance(x, list):
+                    return [conv(v, side) for v in x]
+                return copy.deepcopy(x)
+
+            def run(f, args, side, me):
+                a = f.node.args
+                ps = [x.arg for x in a.posonlyargs + a.args][1:]
+                res = res_a if side == 'A' else res_b
+                env = {'self': me}
+                m0 = interp.Machine({}, None, res)
+                for p_, d in zip(ps[len(ps) - len(a.defaults):],
+                                 a.defaults):
+                    env[p_] = m0.ev(d)
+                for p_, v in zip(ps, args):
+                    env[p_] = conv(v, side)
+                if a.kwarg:
+                    env[a.kwarg.arg] = {}
+                if a.vararg:
+                    env[a.vararg.arg] = ()
+                gen = any(isinstance(x, (ast.Yield, ast.YieldFrom))
+                          for x in au.walk_no_defs(f.node))
+                if gen:
+                    out, _ = interp.run_generator(f.node, env, stubs, res)
+                    return ('return' if out[0] == 'yield' else out[0],
+                            out[1])
+                out, _ = interp.run_function(f.node, env, stubs, res)
+                if out[0] == 'fall':
+                    return ('return', None)
+                return out
+            args_b = list(args)
+            if name == 'find_or_add':
+                # (the one signature that differs: a name for a level)
+                args_b = [order.index(args[0])] + args[1:]
+            what = (f'order {order}: {name}(' + ', '.join(
+                repr(x) for x in args) + ')')
+            try:
+                out_a = run(fa, args, 'A', wrapper)
+                out_b = run(fb, args_b, 'B', obj_b)
+            except interp.Unknown as e:
+                undecided.setdefault(name, str(e))
+                continue
+            n += 1
+            if out_a[0] != out_b[0] or (
+                    out_a[0] == 'raise' and out_a[1] != out_b[1]):
+                problems.setdefault((fa, 'outcome'), (
+                    f'{what}: dd.autoref gives {out_a[0]} '
+                    f'{out_a[1]!r} where dd.bdd gives {out_b[0]} '
+                    f'{out_b[1]!r}'))
+                continue
+            if out_a[0] == 'raise':
+                continue
+
+            def differ(x, y):
+                if hasattr(x, '__next__') or hasattr(y, '__next__'):
+                    x, y = list(x), list(y)
+                if isinstance(x, interp.Sym) and getattr(
+                        x, 'cls', None) is fcls:
+                    if not isinstance(y, int) or isinstance(y, bool):
+                        return f'a handle where dd.bdd gives {y!r}'
+                    u = x.attrs.get('node')
+                    if not isinstance(u, int) or abs(u) not in \
+                            obj_a.attrs['_succ']:
+                        return f'a handle on {u!r}, not a node'
+                    if _tt_obj(obj_a, u, names) != _tt_obj(
+                            obj_b, y, names):
+                        return (f'a handle on node {u}, which does not '
+                                f'denote the function of the reference '
+                                f'{y} that dd.bdd gives (nodes '
+                                f'{obj_a.attrs["_succ"]} / '
+                                f'{obj_b.attrs["_succ"]})')
+                    if x.attrs.get('bdd') is not wrapper:
+                        return ('a handle that does not belong to the '
+                                'manager it was asked of')
+                    if not any(x is g for g in given) and \
+                            obj_a.attrs['_ref'].get(abs(u), 0) < \
+                            obj_b.attrs['_ref'].get(abs(y), 0) + 1 and \
+                            obj_a.attrs['_succ'] == obj_b.attrs['_succ']:
+                        return (f'a new handle on node {u} that owns no '
+                                'count')
+                    return None
+                if isinstance(x, (tuple, list)) and isinstance(
+                        y, (tuple, list)):
+                    if len(x) != len(y):
+                        return f'{x!r} where dd.bdd gives {y!r}'
+                    for p_, q_ in zip(x, y):
+                        d = differ(p_, q_)
+                        if d:
+                            return d
+                    return None
+                if isinstance(x, dict) and isinstance(y, dict) and \
+                        set(x) == set(y):
+                    for k in x:
+                        d = differ(x[k], y[k])
+                        if d:
+                            return d
+                    return None
+                if isinstance(x, interp.Sym) or isinstance(y, interp.Sym):
+                    return f'{x!r} where dd.bdd gives {y!r}'
+                return None if x == y else (
+                    f'{x!r} where dd.bdd gives {y!r}')
+            d = differ(out_a[1], out_b[1])
+            if d:
+                problems.setdefault((fa, 'result'), f'{what} returns {d}')
+                continue
+            for r_ in roots:
+                if abs(r_) not in obj_a.attrs['_succ'] or _tt_obj(
+                        obj_a, r_, names) != _tt_of(base, r_, names):
+                    problems.setdefault((fa, 'live'), (
+                        f'{what}: the live reference {r_} does not '
+                        'denote what it did'))
+                    break
+            if name in state_only:
+                for attr in ('vars', '_succ', '_ref'):
+                    if obj_a.attrs[attr] != obj_b.attrs[attr]:
+                        problems.setdefault((fa, 'state'), (
+                            f'{what}: {attr} = {obj_a.attrs[attr]} '
+                            f'where dd.bdd leaves {obj_b.attrs[attr]}'))
+                        break
+    for name, why in sorted(undecided.items()):
+        R.undecided('R-ARGS', f'dd.autoref.BDD.{name}', 'sibling model',
+                    why)
+    for (f, sub), msg in sorted(problems.items(),
+                                key=lambda kv: (kv[0][0].qualname, kv[0][1])):
+        R.violation('R-ARGS', f'sibling-{sub}', f.qualname, f.name, msg,
+                    unit=f.unit.rel, line=f.lineno)
+    if not problems:
+        R.holds('R-ARGS', 'dd.autoref.BDD / dd.bdd.BDD',
+                f'sibling model ({n} calls interpreted on both sides): '
+                'same outcome, handles on the same functions that belong '
+                'to the manager and own a count, equal plain values, '
+                'live references unchanged')
+    return n
+
+
+def r_autoref_siblings(P, R):
+    n = autoref_sibling_model(P, R)
+    if n is not None:
+        R.floor('R-ARGS calls of the sibling model', n, 80)
+r_autoref_siblings.NAME = 'R-ARGS(autoref sibling model)'
 
 
 def dot_model(P, R):
